@@ -216,11 +216,33 @@ func (ii intInfo) max() *big.Int {
 }
 
 // Mode of a function under contract.
-type Mode struct{ BV bool }
+type Mode struct {
+	BV   bool
+	Wrap bool // int mode with explicit two's-complement wrap-around on + - * (no overflow obligations)
+}
+
+func modeOf(s string) Mode {
+	switch s {
+	case "bv":
+		return Mode{BV: true}
+	case "intwrap":
+		return Mode{Wrap: true}
+	}
+	return Mode{}
+}
+
+// wrap brings a mathematical result of + or - on in-range operands back into the range of the Go type.
+func (m Mode) wrapAddSub(t Tm, ii intInfo) Tm {
+	mod := new(big.Int).Lsh(big.NewInt(1), uint(ii.width))
+	return tm(SInt, "(ite (> %s %s) (- %s %s) (ite (< %s %s) (+ %s %s) %s))", t.S, bigLit(ii.max()).S, t.S, mod.String(), t.S, bigLit(ii.min()).S, t.S, mod.String(), t.S)
+}
 
 func (m Mode) String() string {
 	if m.BV {
 		return "bv"
+	}
+	if m.Wrap {
+		return "intwrap"
 	}
 	return "int"
 }
